@@ -290,7 +290,7 @@ def stepMon (st : MState) (op : String) (out : String) : MState × List Viol :=
           | _ => (st, [])
         | ["newblocks", b] =>
           ({ st with avail := ((NodeIO.parsePairs b).getD []) ++ st.avail }, [])
-        | ["msg", p, h, d, b, w] =>
+        | "msg" :: p :: h :: d :: b :: w :: _ =>
           let p := p.toNat?.getD 0
           -- serving side: the reference fold of this peer's wantlist messages
           let (st, vref) : MState × List Viol :=
